@@ -6,7 +6,7 @@ from __future__ import absolute_import, division
 import re
 from collections import OrderedDict
 
-from .CommonMixin import CommonMixin
+from .CommonMixin import CommonMixin, formatGcodeNumber
 
 # TODO: parsing options?
 #   - specify whitespace chars
@@ -511,7 +511,7 @@ class GcodeParser(CommonMixin):  # pylint: disable=too-many-instance-attributes
         if (paramsDict is not None):
             for key, val in paramsDict.items():
                 if (val is not None):
-                    key += str(val)
+                    key += formatGcodeNumber(val) if isinstance(val, float) else str(val)
 
                 if (key):
                     vals.append(key)
